@@ -145,7 +145,10 @@ def gen(rng, idx, tier):
                     cls = "a"
             probes.append({"cls": cls, "kind": kind, "mut": mut, "hex": data.hex()})
     t = rng.choice([0.05, 0.1])
-    return {"state": state, "probes": probes, "t": t, "sched": C.gen_sched(rng, fine_pct=10), "net": C.gen_net(rng)}
+    # after its last probe the peer waits for the provider's reaction ("drain") or ends the connection at once,
+    # orderly or with a reset - for a truncated probe that is a connection ending part-way through a PDU
+    end = rng.choice(["drain", "drain", "close", "reset"])
+    return {"state": state, "probes": probes, "t": t, "end": end, "sched": C.gen_sched(rng, fine_pct=10), "net": C.gen_net(rng)}
 
 
 def shrink(sc):
@@ -156,6 +159,10 @@ def shrink(sc):
             d = copy.deepcopy(sc)
             del d["probes"][i]
             yield d
+    if sc.get("end", "drain") == "reset":
+        d = copy.deepcopy(sc)
+        d["end"] = "close"
+        yield d
     if sc["net"] != {"seg": "whole"}:
         d = copy.deepcopy(sc)
         d["net"] = {"seg": "whole"}
@@ -198,6 +205,16 @@ def execute(sc, ctx):
             unstable.append("%s:%s" % (type(p).__name__, type(e).__name__))
             sim.record("unstable_pdu", pdu=type(p).__name__, exc=repr(e)[:120])
 
+    def _finish(p):
+        end = sc.get("end", "drain")
+        if end == "drain":
+            ctx.obs["peer_end"] = p.drain(4 * t + 0.2)
+            p.close()
+        elif end == "close":
+            p.close()
+        else:
+            p.reset()
+
     hh = [(evt.EVT_PDU_RECV, on_pdu_recv)]
     state = sc["state"]
     if state == "sta5":
@@ -211,8 +228,7 @@ def execute(sc, ctx):
             for i, pr in enumerate(sc["probes"]):
                 sim.record("probe", i=i, cls=pr["cls"], what=pr["kind"], n=len(pr["hex"]) // 2)
                 p.send(bytes.fromhex(pr["hex"]))
-            ctx.obs["peer_end"] = p.drain(4 * t + 0.2)
-            p.close()
+            _finish(p)
 
         pt = ctx.spawn(peer, "peer")
         ae = ctx.make_ae("SCU", acse=t, dimse=t, network=2 * t)
@@ -248,8 +264,7 @@ def execute(sc, ctx):
                 continue
             sim.record("probe", i=i, cls=pr["cls"], what=pr["kind"], n=len(pr["hex"]) // 2)
             p.send(bytes.fromhex(pr["hex"]))
-        ctx.obs["peer_end"] = p.drain(4 * t + 0.2)
-        p.close()
+        _finish(p)
     ctx.wait_until(lambda: bool(ctx.assocs), 0.2, step=0.001)
     ctx.obs["scripts_done_t"] = sim.now
     ctx.wait_until(lambda: not any(a.is_alive() or a.dul.is_alive() for a in ctx.assocs.values()), 10 * t + 1.0, step=0.005)
@@ -299,7 +314,8 @@ def nontrivial(sc, r):
 
 
 def probes(sc, r):
-    d = {"state_" + sc["state"]: True}
+    d = {"state_" + sc["state"]: True, "end_" + sc.get("end", "drain"): True}
+    d["ended_inside_truncated_probe"] = sc.get("end", "drain") != "drain" and sc["probes"][-1].get("mut") == "truncate"
     for p in sc["probes"]:
         d["class_" + p["cls"]] = True
         if p["cls"] == "b":
